@@ -49,7 +49,7 @@ pub fn type_specs(thorough: bool) -> Vec<TySpec> {
         TySpec { spell: "bool", ty: Type::Bool(f.clone()), lit: Some("true"), ident: "bo" },
         TySpec { spell: "duration", ty: Type::Duration(f.clone()), lit: Some("10ns"), ident: "du" },
     ];
-    if thorough {
+    {
         v.extend(vec![
             TySpec { spell: "int[64]", ty: Type::Int(Some(64), f.clone()), lit: Some("1"), ident: "i64" },
             TySpec { spell: "uint", ty: Type::UInt(None, f.clone()), lit: Some("1"), ident: "u0" },
@@ -61,6 +61,18 @@ pub fn type_specs(thorough: bool) -> Vec<TySpec> {
             TySpec { spell: "complex[float[8]]", ty: Type::Complex(Some(8), f.clone()), lit: Some("2.5im"), ident: "c8" },
             TySpec { spell: "bit[8]", ty: Type::BitArray(ArrayDims::D1(8), f.clone()), lit: Some("\"01010101\""), ident: "b8" },
             TySpec { spell: "stretch", ty: Type::Stretch(f.clone()), lit: None, ident: "st" },
+        ]);
+    }
+    if thorough {
+        v.extend(vec![
+            TySpec { spell: "int[16]", ty: Type::Int(Some(16), f.clone()), lit: Some("1"), ident: "i16" },
+            TySpec { spell: "int[1]", ty: Type::Int(Some(1), f.clone()), lit: Some("1"), ident: "i1" },
+            TySpec { spell: "uint[16]", ty: Type::UInt(Some(16), f.clone()), lit: Some("1"), ident: "u16" },
+            TySpec { spell: "uint[1]", ty: Type::UInt(Some(1), f.clone()), lit: Some("1"), ident: "u1" },
+            TySpec { spell: "float[16]", ty: Type::Float(Some(16), f.clone()), lit: Some("1.5"), ident: "f16" },
+            TySpec { spell: "angle[16]", ty: Type::Angle(Some(16), f.clone()), lit: None, ident: "a16" },
+            TySpec { spell: "complex[float[16]]", ty: Type::Complex(Some(16), f.clone()), lit: Some("2.5im"), ident: "c16" },
+            TySpec { spell: "bit[1]", ty: Type::BitArray(ArrayDims::D1(1), f.clone()), lit: Some("\"1\""), ident: "b1" },
         ]);
     }
     v
